@@ -114,6 +114,8 @@ def event_strs(events):
                                                      e["rr_type"], hx(e["intf"].encode())))
                 elif k == "Respond":
                     out.append("E:R:%s" % hx(e.get("detail", "").encode()))
+                elif k in ("IpAdd", "IpDel"):
+                    out.append("E:I:%s:%s" % ("+" if k == "IpAdd" else "-", hx(ipaddress.ip_address(e["ip"]).packed)))
                 elif k == "<closed>":
                     pass
                 else:
@@ -171,7 +173,7 @@ def svc_fields(svc):
     host = svc["host"]
     if host.endswith(".local.local."):
         host = host[:-len("local.")]
-    addrs = [ipaddress.ip_address(a.strip()) for a in svc.get("ips", "").split(",") if a.strip()]
+    addrs = [] if svc.get("ips") == "auto" else [ipaddress.ip_address(a.strip()) for a in svc.get("ips", "").split(",") if a.strip()]
     txt = b""
     for kv in svc.get("props", []):
         k = bytes.fromhex(kv[0]) if kv[0] != "-" else b""
@@ -196,10 +198,17 @@ def call_tok(c, result):
     if op == "register":
         svc = c["svc"]
         ty, sub, full, host, addrs, txt = svc_fields(svc)
-        return "r,%s,%s,%s,%s,%s,%d,%s,%d" % (
+        return "r,%s,%s,%s,%s,%s,%d,%s,%d,%d" % (
             hx(ty.encode()), hx(sub.encode()) if sub else "~", hx(full.encode()), hx(host.encode()),
             "+".join(hx(a.packed) for a in addrs) if addrs else "n", svc.get("port", 80), hx(txt),
-            0 if svc.get("probe") is False else 1)
+            0 if svc.get("probe") is False else 1, 1 if svc.get("ips") == "auto" else 0)
+    if op in ("enable_interface", "disable_interface"):
+        ks = []
+        for k in c.get("kinds", []):
+            kk = k.get("k")
+            ks.append("A" if kk == "All" else "4" if kk == "IPv4" else "6" if kk == "IPv6"
+                      else ("N" + hx(k.get("v", "").encode())) if kk == "Name" else "U")
+        return "i,%d,%s" % (1 if op == "enable_interface" else 0, "+".join(ks) if ks else "n")
     return "o"
 
 
@@ -429,6 +438,12 @@ def build_input(pid, h, its, orders):
             ifs.append("%d,%s,%s" % (idx, hx(name.encode()),
                                      "+".join("%s_%s" % (hx(ip.packed), hx(mask.packed)) for ip, mask in addrs)))
         toks.append("D:%d:%s" % (d, ";".join(ifs) if ifs else "n"))
+        rows = []
+        for x in dv["ifaces"]:
+            ip = ipaddress.ip_address(x["addr"])
+            mask = ipaddress.ip_address(x.get("mask") or ("255.255.255.0" if ip.version == 4 else "ffff:ffff:ffff:ffff::"))
+            rows.append("%d,%s,%s,%s" % (x["index"], hx(x["name"].encode()), hx(ip.packed), hx(mask.packed)))
+        toks.append("O:%d:%s" % (d, ";".join(rows) if rows else "n"))
     for rec, calls, dgs in replay_steps(h, its):
         ctoks = []
         if calls:
@@ -438,17 +453,10 @@ def build_input(pid, h, its, orders):
         gtoks = [x for x in (dgram_tok(g) for g in dgs) if x is not None]
         jit = rec.get("jitter", [])
         wake = rec.get("wake")
-        # interface of the last IPv4 multicast packet of the iteration (what the socket's
-        # IP_MULTICAST_IF is left at; same-iteration order across interfaces may come from a HashSet)
-        mif = None
-        for p in rec.get("sent", []):
-            if p.get("v4") and p.get("kind") == "mcast" and p.get("if") is not None:
-                mif = p["if"]
-        toks.append("I:%d:%d:%s:%s:%s:%s:%s" % (
+        toks.append("I:%d:%d:%s:%s:%s:%s" % (
             rec["d"], rec["now"], "n" if wake is None else str(wake),
             ".".join(str(x) for x in jit) if jit else "n",
-            ";".join(ctoks) if ctoks else "n", ";".join(gtoks) if gtoks else "n",
-            "n" if mif is None else str(mif)))
+            ";".join(ctoks) if ctoks else "n", ";".join(gtoks) if gtoks else "n"))
     return " ".join(toks)
 
 
@@ -952,3 +960,98 @@ def known_by_codes(mon, table):
 
 def has_sends(obs):
     return " S:" in obs
+
+
+# --------------------------------------------------------------------------- round 2 generators
+
+def gen_iface_toggle_history(rng, hid):
+    """An addr_auto service while an interface (or one of its families) is disabled and enabled
+    again at chosen phases of probing / after the announcements."""
+    cfg = rng.choice(["v4", "dual", "dual", "v6"])
+    seed = rng.choice(list(FIRST_JITTER))
+    j = FIRST_JITTER[seed]
+    T = T0 + j
+    auto = svc(rng.choice(TYPES), rng.choice(["inst", "Auto", "x (2)"]), rng.choice(HOSTS), "auto",
+               rng.choice([80, 8080]), rng.choice([[], [["61", "62"]]]), False if rng.random() < 0.15 else None)
+    calls = [{"op": "monitor", "ch": "m"}, {"op": "register", "svc": auto}]
+    if rng.random() < 0.3:
+        calls.append({"op": "register", "svc": pick_service(rng, cfg, 1)})
+    steps = [{"t": T0, "d": 0, "calls": calls}]
+    kinds = [[{"k": "Name", "v": "eth0"}], [{"k": "All"}], [{"k": "IPv4"}], [{"k": "IPv6"}]]
+    kind = rng.choice(kinds if cfg == "dual" else kinds[:2])
+    ph_off = rng.choice([-1, 0, 1, 100, 250, 251, 400, 500, 600, 749, 750, 751, 900, 1750, 2000])
+    gap = rng.choice([0, 1, 10, 100, 249, 250, 400, 750, 1000, 3000])
+    at_time(steps, T + ph_off, rng.random() < 0.5, calls=[{"op": "disable_interface", "kinds": kind}])
+    t_en = T + ph_off + gap
+    if gap == 0:
+        steps.append({"t": t_en, "d": 0, "calls": [{"op": "enable_interface", "kinds": kind}]})
+    else:
+        at_time(steps, t_en, rng.random() < 0.5, calls=[{"op": "enable_interface", "kinds": kind}])
+    if rng.random() < 0.4:
+        steps.append({"t": t_en, "d": 0, "dgrams": [queries_for(rng, auto | {"ips": ADDRS[cfg][0]}, cfg)]})
+    end = t_en + rng.choice([1200, 2200, 3000])
+    marks = sorted(rng.randrange(t_en, end) for _ in range(rng.choice([0, 1, 3])))
+    for m in marks:
+        steps.append({"run_until": m})
+        steps.append({"t": m, "d": 0, "dgrams": [queries_for(rng, auto | {"ips": ADDRS[cfg][0]}, cfg)]})
+    steps.append({"run_until": end})
+    if rng.random() < 0.3:
+        steps.append({"t": end, "d": 0, "calls": [{"op": "unregister", "name": fullname_of(auto), "ch": "u1"}]})
+        steps.append({"run_until": end + 300})
+    return {"id": hid, "t0": T0, "daemons": [{"seed": seed, "ifaces": IFCFGS[cfg]}], "link": "none", "steps": steps,
+            "meta": {"family": "toggle", "cfg": cfg, "ph": ph_off, "gap": gap, "kind": kind}}
+
+
+def gen_prefix_tiebreak_history(rng, hid, offset=None):
+    """Two daemons claim the same host name; one proposes a record list that is a proper prefix
+    of the other's ({A} against {A, AAAA} with the same A record): the shorter list loses by the
+    length rule. Also the single-daemon form: a competing probe whose authority list extends /
+    is a prefix of the daemon's own."""
+    if rng.random() < 0.5:
+        seeds = [rng.choice(list(FIRST_JITTER)) for _ in range(2)]
+        if offset is None:
+            offset = rng.choice([0, 1, 50, 100, 200, 249, 250, 251, 300, 400, 500, 600, 700])
+        host = "ph.local."
+        d0 = {"seed": seeds[0], "ifaces": [iface("eth0", 2, "192.168.1.10")]}
+        d1 = {"seed": seeds[1], "ifaces": [iface("eth0", 2, "192.168.1.10"), iface("eth0", 2, "fe80::11")]}
+        s0 = svc("_t._tcp.local.", "pa", host, "192.168.1.10", 8000, [])
+        s1 = svc("_t._tcp.local.", "pb", host, "192.168.1.10,fe80::11", 8001, [])
+        first, second = (0, 1) if rng.random() < 0.5 else (1, 0)
+        svcs = {0: s0, 1: s1}
+        steps = [{"t": T0, "d": 0, "calls": [{"op": "monitor", "ch": "m"}]}, {"t": T0, "d": 1, "calls": [{"op": "monitor", "ch": "m"}]},
+                 {"t": T0, "d": first, "calls": [{"op": "register", "svc": svcs[first]}]}]
+        if offset > 0:
+            steps.append({"run_until": T0 + offset})
+        steps.append({"t": T0 + offset, "d": second, "calls": [{"op": "register", "svc": svcs[second]}]})
+        steps.append({"run_until": T0 + offset + 5000, "max_iters": 2000})
+        return {"id": hid, "t0": T0, "daemons": [d0, d1], "link": "lossless", "steps": steps,
+                "meta": {"family": "prefix2", "offset": offset, "seeds": seeds}}
+    seed = rng.choice(list(FIRST_JITTER))
+    j = FIRST_JITTER[seed]
+    T = T0 + j
+    cfg = rng.choice(["v4", "dual"])
+    s = svc("_t._tcp.local.", "pinst", "ph.local.", ",".join(ADDRS[cfg][:2] if cfg == "dual" else ADDRS[cfg][:1]), 80, [])
+    steps = [{"t": T0, "d": 0, "calls": [{"op": "monitor", "ch": "m"}, {"op": "register", "svc": s}]}]
+    ph = rng.choice([1, 100, 249, 251, 400, 501, 700])
+    kind = rng.choice(["longer", "shorter", "host-longer", "host-shorter", "eq"])
+    ty, sub, full, host, addrs, txt = svc_fields(s)
+    fl, hl = name_labels(full), dnsgen.labels_of(host)
+    SRV = lambda p: (fl, 33, 0x8001, 120, dnsgen.rd_srv(0, 0, p, hl))
+    TXT = (fl, 16, 0x8001, 4500, dnsgen.rd_bytes(txt))
+    A = (hl, 1, 0x8001, 120, dnsgen.rd_bytes(addrs[0].packed))
+    AAAA = lambda ip: (hl, 28, 0x8001, 120, dnsgen.rd_bytes(ipaddress.ip_address(ip).packed))
+    if kind == "longer":
+        qs, auth = [(fl, 255)], [TXT, SRV(80), SRV(81)]
+    elif kind == "shorter":
+        qs, auth = [(fl, 255)], [TXT]
+    elif kind == "host-longer":
+        own6 = [AAAA(str(a)) for a in addrs if a.version == 6]
+        qs, auth = [(hl, 255)], [A] + own6 + [AAAA("fe80::ffff")]
+    elif kind == "host-shorter":
+        qs, auth = [(hl, 255)], [A]
+    else:
+        qs, auth = [(fl, 255)], [TXT, SRV(80)]
+    at_time(steps, T + ph, False, dgrams=[q_dgram(None, 2, True, qs, authorities=auth)])
+    steps.append({"run_until": T + ph + 3500})
+    return {"id": hid, "t0": T0, "daemons": [{"seed": seed, "ifaces": IFCFGS[cfg]}], "link": "none", "steps": steps,
+            "meta": {"family": "prefix1", "ph": ph, "kind": kind}}
